@@ -37,11 +37,25 @@ static void *cycle_thread(void *arg)
   int tid = (int) (long) arg;
   char script[64]; snprintf(script, sizeof script, "cat; exit %d", 10 + tid);
   const char *argv[] = { "/bin/sh", "-c", script, NULL };
+  /* every thread has a signal mask of its own and must still have exactly it after every start */
+  sigset_t mine, now_;
+  sigemptyset(&mine); sigaddset(&mine, SIGRTMIN + 1 + tid % 20); if (tid % 2) sigaddset(&mine, SIGUSR2);
+  pthread_sigmask(SIG_SETMASK, &mine, NULL);
   for (int c = 0; c < cycles; c++) {
     reproc_t *p = reproc_new();
     reproc_options o = { 0 };
+    if (tid % 2) o.redirect.err.type = REPROC_REDIRECT_PIPE;      /* threads differ in their (valid) options */
+    if (tid % 4 == 3) {
+      /* ... and some also make requests that must be rejected, with shorthands another thread's request does not have */
+      reproc_options bad = { 0 };
+      bad.redirect.file = stdout; bad.redirect.path = "/nonexistent-dir/x";
+      int rb = reproc_start(p, argv, bad);
+      if (rb != REPROC_EINVAL) { fail("start-accepted-invalid", tid, rb, c); reproc_destroy(p); continue; }
+    }
     int r = reproc_start(p, argv, o);
-    if (r < 0) { fail("start", tid, r, c); reproc_destroy(p); continue; }
+    if (r < 0) { fail(r == REPROC_EINVAL ? "start-rejected-valid" : "start", tid, r, c); reproc_destroy(p); continue; }
+    pthread_sigmask(SIG_SETMASK, NULL, &now_);
+    for (int sg = 1; sg < 64; sg++) if (sigismember(&mine, sg) != sigismember(&now_, sg)) { fail("mask-after-start", tid, sg, c); pthread_sigmask(SIG_SETMASK, &mine, NULL); break; }
     char msg[256]; int n = snprintf(msg, sizeof msg, "thread-%d-cycle-%d-%s", tid, c, "payload-payload-payload");
     int off = 0;
     /* polling one's own child while other threads poll theirs: each with its own interests and answer */
